@@ -12,6 +12,8 @@ with_tests = "--with-tests" in args
 only = args[args.index("--only") + 1] if "--only" in args else None
 props_filter = args[args.index("--props") + 1].split(",") if "--props" in args else None
 muts = sorted(glob.glob(HERE + "/mutants/*.diff")) + sorted(glob.glob(HERE + "/seeded/*/patch.diff"))
+if "--seeded" in args:  # only the independently seeded changes; the outcome is written back into their meta.json
+    muts = [m for m in muts if m.endswith("patch.diff")]
 rows = []
 for m in muts:
     name = os.path.basename(os.path.dirname(m)) if m.endswith("patch.diff") else os.path.basename(m)[:-5]
@@ -53,6 +55,13 @@ for m in muts:
     finally:
         subprocess.run(["git", "-C", "/repo", "worktree", "remove", "--force", wt])
         shutil.rmtree(wt, ignore_errors=True)
+if "--seeded" in args:
+    for r in rows:
+        mp = os.path.join(HERE, "seeded", r["mutant"], "meta.json")
+        if os.path.exists(mp) and "property" in r:
+            meta = json.load(open(mp))
+            meta.setdefault("our_checks_final", {})[r["property"]] = {"killed": r["killed"], "rc": r["rc"], "keys": r["keys"], "wall_s": r["wall_s"]}
+            json.dump(meta, open(mp, "w"), indent=1)
 os.makedirs(HERE + "/replays", exist_ok=True)
 json.dump(rows, open(HERE + "/replays/selftest.json", "w"), indent=1)
 surv = [r for r in rows if not r.get("killed")]
